@@ -53,7 +53,29 @@ namespace chaiscript::dispatch::detail {
       std::array<Boxed_Value, sizeof...(P)> params{box<P>(std::forward<P>(param))...};
 
       if (m_conversions) {
-        Type_Conversions_State state(*m_conversions, m_conversions->conversion_saves());
+        auto &saves = m_conversions->conversion_saves();
+        Type_Conversions_State state(*m_conversions, saves);
+
+        // When no script call is active on this thread the call starts here, in C++: the temporaries
+        // that conversions of the arguments create must stay alive until the callee has returned.
+        struct Keep_Converted_Arguments {
+          explicit Keep_Converted_Arguments(Type_Conversions::Conversion_Saves &t_saves) noexcept
+              : m_saves(t_saves)
+              , m_was_enabled(t_saves.enabled) {
+            m_saves.enabled = true;
+          }
+          Keep_Converted_Arguments(const Keep_Converted_Arguments &) = delete;
+          Keep_Converted_Arguments &operator=(const Keep_Converted_Arguments &) = delete;
+          ~Keep_Converted_Arguments() {
+            if (!m_was_enabled) {
+              m_saves.enabled = false;
+              m_saves.saves.clear();
+            }
+          }
+          Type_Conversions::Conversion_Saves &m_saves;
+          const bool m_was_enabled;
+        } keep(saves);
+
         return call(chaiscript::Function_Params{params}, state);
       } else {
         Type_Conversions conv;
